@@ -89,6 +89,8 @@ def main():
     ap.add_argument("--limit", type=int, default=0)
     ap.add_argument("--files", default="")
     ap.add_argument("--seed", type=int, default=1)
+    ap.add_argument("--only", default="", help="comma-separated mutant ids: run just these, print the outcome and the mutated lines, merge into selftest/mutation_results.json")
+    ap.add_argument("--survivors", action="store_true", help="re-run the survivors recorded in selftest/mutation_results.json")
     a = ap.parse_args()
     rng = random.Random(a.seed)
     allm = []
@@ -104,6 +106,29 @@ def main():
             allm += l[:a.per_func]
     for i, m in enumerate(allm):
         m["id"] = i
+    only = set(int(x) for x in a.only.split(",") if x)
+    resfile = os.path.join(VERIF, "selftest", "mutation_results.json")
+    if a.survivors:
+        old = json.load(open(resfile))
+        only |= {r["id"] for r in old["results"] if r["suite"] == "pass" and not r.get("killed_by")}
+    if only:
+        import difflib
+        sel = [m for m in allm if m["id"] in only]
+        old = json.load(open(resfile)) if os.path.exists(resfile) else {"results": []}
+        byid = {r["id"]: r for r in old["results"]}
+        os.makedirs(SCRATCH, exist_ok=True)
+        with ThreadPoolExecutor(a.jobs) as ex:
+            for m, r in zip(sel, ex.map(lambda m: one(m, a.shards), sel)):
+                orig = open(os.path.join("/repo", m["file"])).read().splitlines()
+                d = [l for l in difflib.unified_diff(orig, m["src"].splitlines(), lineterm="", n=0) if not l.startswith(("---", "+++"))]
+                print("#%d %s %s line %d %s -> suite=%s killed_by=%s checks=%s" % (m["id"], m["file"], m["func"], m["line"], m["kind"], r["suite"], r.get("killed_by"), r.get("checks")), flush=True)
+                for l in d[:8]:
+                    print("      " + l)
+                byid[m["id"]] = r
+        old["results"] = [byid[k] for k in sorted(byid)]
+        json.dump(old, open(resfile, "w"), indent=0)
+        shutil.rmtree(SCRATCH, ignore_errors=True)
+        return
     if a.limit:
         rng.shuffle(allm)
         allm = allm[:a.limit]
